@@ -47,10 +47,19 @@ const vDeclSize = 5 // declared size in the resource name (the relation to the b
 func vWriteIdentity(maxMsgs int) {
 	c := &vCache{maxBlobSize: vsym.Int64("maxBlobSize"), good: map[string]bool{}, exists: map[string]bool{}, existsSize: map[string]int64{}}
 	vsym.Assume(c.maxBlobSize > 0)
-	pre := vsym.Choose("preexisting", 2) == 1
-	if pre {
+	pre := false
+	switch vsym.Choose("preexisting", 3) {
+	case 1:
+		pre = true
 		c.exists[vHashA] = true
 		c.existsSize[vHashA] = vDeclSize
+	case 2:
+		// an entry for the same hash with another size does not make the
+		// declared (hash, size) present
+		c.exists[vHashA] = true
+		c.existsSize[vHashA] = vsym.Int64("otherSize")
+		vsym.Assume(c.existsSize[vHashA] >= 0)
+		vsym.Assume(c.existsSize[vHashA] != vDeclSize)
 	}
 	c.good["client"] = vsym.Bool("bytes-are-the-blob")
 	s := vNewServer(c)
@@ -122,6 +131,9 @@ func vWriteIdentity(maxMsgs int) {
 	} else {
 		vsym.Reach("write-error")
 		vsym.Assert(st.resp == nil, "bytestream/C16-error-after-response")
+		// a call that fails (changed resource name, aborted stream, bad offset,
+		// wrong bytes ...) has stored nothing, not even a moment later
+		vsym.Assert(!stored, "bytestream/C01-C16-failed-write-stored-the-blob")
 		if !pre {
 			// everything fine => must succeed
 			fine := vsym.And(vsym.And(firstOffset == 0, total == vDeclSize), vsym.And(c.good["client"], vDeclSize <= c.maxBlobSize))
@@ -222,16 +234,26 @@ func VerifBytestreamWrite3() { vWriteIdentity(3) }
 
 func VerifQueryWriteStatus() {
 	c := &vCache{maxBlobSize: 1 << 40, exists: map[string]bool{}, existsSize: map[string]int64{}}
-	if vsym.Choose("exists", 2) == 1 {
+	present := false
+	switch vsym.Choose("exists", 3) {
+	case 1:
+		present = true
 		c.exists[vHashA] = true
+		c.existsSize[vHashA] = 5
+	case 2:
+		// the hash is cached with another size: (hash, 5) is not complete
+		c.exists[vHashA] = true
+		c.existsSize[vHashA] = vsym.Int64("otherSize")
+		vsym.Assume(c.existsSize[vHashA] >= 0)
+		vsym.Assume(c.existsSize[vHashA] != 5)
 	}
 	s := vNewServer(c)
 	resp, err := s.QueryWriteStatus(context.Background(), &bytestream.QueryWriteStatusRequest{ResourceName: "uploads/u/blobs/" + vHashA + "/5"})
 	vsym.Reach("qws")
 	vsym.Assert(err == nil && resp != nil, "bytestream/C16-query-write-status-answers")
 	if resp != nil {
-		vsym.Assert(resp.Complete == c.exists[vHashA], "bytestream/C16-complete-exactly-when-present")
-		if c.exists[vHashA] {
+		vsym.Assert(resp.Complete == present, "bytestream/C16-complete-exactly-when-present")
+		if present {
 			vsym.Assert(resp.CommittedSize == 5, "bytestream/C16-complete-reports-full-size")
 		} else {
 			vsym.Assert(resp.CommittedSize == 0, "bytestream/C16-incomplete-reports-zero")
